@@ -1,4 +1,5 @@
 """C15 — address allocation never hands the same address to two holders (DESIGN.md §4 C15)."""
+import re
 from .. import facts as F
 from ..cfg import cfg
 from .. import dep
@@ -251,9 +252,28 @@ def _lease_server(prog, sd):
         probs.append("reply types are %s, expected Discover->Offer, Request->Ack" % types)
     for fld, bbs in (("ip_generator", [x[0] for x in fetch + ret]),):
         for bb in bbs:
-            if not dep.has_field(dep.arg_origins(sd, bb, 0), "DhcpServer", "ip_generator"):
+            o = dep.arg_origins(sd, bb, 0)
+            if not dep.has_field(o, "DhcpServer", "ip_generator"):
                 probs.append("the pool used is not the server's own generator")
+                continue
+            # pick-and-reserve is one call on the shared pool itself under its exclusive lock: every call between the
+            # field and the receiver is the lock acquisition, the unwrap of its result or the guard's deref_mut.  A
+            # clone, a shared (read) guard or any other detour means two concurrent Discovers can be handed the same address.
+            chain = sorted({a[1] for a in o if a[0] == "call" and a[1]})
+            odd = [c for c in chain if not _EXCL.search(c) and not _PASS.search(c)]
+            if odd:
+                probs.append("the pool operation at bb%d does not act on the shared generator under its exclusive lock (receiver goes through %s): concurrent requests can be handed the same address" % (bb, ", ".join(_short(c) for c in odd)))
+            elif not any(_EXCL.search(c) for c in chain):
+                probs.append("the pool operation at bb%d is not under the generator's exclusive lock" % bb)
     return probs
+
+
+_EXCL = re.compile(r"rwlock::.*::write$|mutex::.*::lock$|RwLock.*::write$|Mutex.*::lock$")
+_PASS = re.compile(r"result::\{impl#\d+\}::(unwrap|expect)$|::deref_mut$|sync::\{impl#\d+\}::deref$|::as_mut$|::borrow_mut$")
+
+
+def _short(c):
+    return "::".join(c.split("::")[-2:])
 
 
 def _lease_client(prog, cd):
